@@ -66,6 +66,50 @@ def fresh(prefix, sort):
     return z3.Const(n, sort)
 
 
+def _is_fresh_id(t):
+    """alloc constant + positive numeral: the id of an object allocated after function entry"""
+    if z3.is_add(t) and t.num_args() == 2:
+        a, b = t.arg(0), t.arg(1)
+        if z3.is_int_value(a):
+            a, b = b, a
+        if z3.is_int_value(b) and b.as_long() >= 1 and z3.is_const(a) and a.decl().kind() == z3.Z3_OP_UNINTERPRETED:
+            n = a.decl().name()
+            return n == "alloc0" or n.startswith("alloc!")
+    return False
+
+
+def _is_h0_array(a):
+    """an array of the entry heap: H0!<name>, or a row of one (select(H0!list.I, l))"""
+    while z3.is_app(a) and a.decl().kind() == z3.Z3_OP_SELECT:
+        a = a.arg(0)
+    return z3.is_const(a) and a.decl().kind() == z3.Z3_OP_UNINTERPRETED and a.decl().name().startswith("H0!")
+
+
+def _is_prestate_ref(t, params):
+    """a value READ FROM THE ENTRY HEAP (select(H0!.., i), any index) or a parameter: a reference that existed at function entry.
+    Assumption recorded in evidence: heap well-formedness at entry -- no cell of the entry heap holds a reference to an object
+    that does not exist yet."""
+    if z3.is_const(t) and t.decl().kind() == z3.Z3_OP_UNINTERPRETED:
+        return t.decl().name() in params
+    return z3.is_app(t) and t.decl().kind() == z3.Z3_OP_SELECT and _is_h0_array(t.arg(0))
+
+
+ARRAY_DEFS = {}     # name of a final-heap constant F!<array> -> the term it is defined by (verify.exit_normal)
+
+
+def heap_select(arr, idx, params):
+    """Select(arr, idx), looking through stores at ids of objects allocated after entry when idx is an entry-state reference"""
+    idx_s = z3.simplify(idx)
+    if params is not None and _is_prestate_ref(idx_s, params):
+        a = arr
+        if z3.is_const(a) and a.decl().kind() == z3.Z3_OP_UNINTERPRETED and a.decl().name() in ARRAY_DEFS:
+            a = ARRAY_DEFS[a.decl().name()]       # a named final-heap array: look through its defining term
+        while z3.is_app(a) and a.decl().kind() == z3.Z3_OP_STORE and _is_fresh_id(z3.simplify(a.arg(1))):
+            a = a.arg(0)
+        arr = a
+    return z3.simplify(z3.Select(arr, idx))
+
+
 def z3sort(s):
     k = s[0]
     if is_intlike(s):
@@ -297,6 +341,7 @@ class Engine:
         self.calls_seen = []
         self.assumption_log = set()
         self.abstracted = []
+        self.param_consts = None      # names of the parameter constants (set by verify): enables heap_select's look-through
 
     # ------------------------------------------------------------------ heap primitives
     def arr(self, st, name):
@@ -352,9 +397,9 @@ class Engine:
         a = self.arr(st, name)
         if fs[0] in ("opt", "ids"):
             n = self.arr(st, name + "#n")
-            v = V(fs, (z3.simplify(z3.Select(n, obj_t)), z3.simplify(z3.Select(a, obj_t))))
+            v = V(fs, (heap_select(n, obj_t, self.param_consts), heap_select(a, obj_t, self.param_consts)))
             return v
-        v = V(fs, z3.simplify(z3.Select(a, obj_t)))
+        v = V(fs, heap_select(a, obj_t, self.param_consts))
         return self.typing_facts(st, v, guard=z3.And(obj_t >= 1, obj_t <= st.heap.alloc))
 
     def store_field(self, st, obj_t, cname, fname, val, node=None):
@@ -469,12 +514,12 @@ class Engine:
         raise Unsupported(f"list of {show(elem_sort)}")
 
     def list_len(self, st, lst):
-        ln = z3.simplify(z3.Select(self.arr(st, "list.len"), lst.t))
+        ln = heap_select(self.arr(st, "list.len"), lst.t, self.param_consts)
         st.assume(z3.Implies(z3.And(lst.t >= 1, lst.t <= st.heap.alloc), ln >= 0))
         return ln
 
     def list_elems(self, st, lst):
-        return z3.simplify(z3.Select(self.arr(st, self.elem_arr_name(lst.s[1])), lst.t))
+        return heap_select(self.arr(st, self.elem_arr_name(lst.s[1])), lst.t, self.param_consts)
 
     @staticmethod
     def note_index(st, idx_t):
@@ -485,7 +530,7 @@ class Engine:
             st.index_terms = st.index_terms + [idx_t]
 
     def list_get(self, st, lst, idx_t):
-        e = z3.Select(self.list_elems(st, lst), idx_t)
+        e = z3.simplify(z3.Select(self.list_elems(st, lst), idx_t))      # beta-reduces a lambda-defined element array at this index
         ln = z3.Select(self.arr(st, "list.len"), lst.t)
         return self.typing_facts(st, V(lst.s[1], e), guard=z3.And(idx_t >= 0, idx_t < ln, lst.t >= 1, lst.t <= st.heap.alloc))
 
